@@ -767,6 +767,33 @@ def start_nodes(ctx: Ctx):
             whym = "weights[~action_mask] = -inf before the softmax: infeasible actions have probability exactly 0"
     ctx.ob("C12.d", "sample_n_random_actions:replacement-only-if-needed", ok, fi.loc, why, construct="sample_n_random_actions:replacement")
     ctx.ob("C12.d", "sample_n_random_actions:masked-weights", okm, fi.loc, whym, construct="sample_n_random_actions:masking")
+    # start selection is per instance: neither the indices nor the choice of formula / the replacement flag may come from a
+    # reduction over the whole batch (one short instance would otherwise change the starts of all its batch-mates)
+    from .. import batchaxis as ba
+    from ..model import alpha_key
+    for fq_ in ("select_start_nodes", "sample_n_random_actions"):
+        f_ = ctx.repo.get_function(OPS, fq_)
+        it_ = vg.Interp(ctx.repo, None, inline_policy=lambda f, a: False)
+        fr_ = it_.run_function(f_)
+        roots_ = [v for c, v in fr_.returns if isinstance(v, vg.S)]
+        per = {}
+        for r_ in roots_:
+            for h in ba.hits(r_):
+                per[h.node.id] = h
+            # guards of the alternatives and keyword operands are part of the decision
+            for n_ in vg.walk(r_):
+                if n_.op in ("phi", "ifexp") and isinstance(n_.args[0], vg.S):
+                    for h in ba.hits(n_.args[0]):
+                        per[h.node.id] = h
+        hits_ = [h for h in per.values() if h.kind in ("reduce-all", "row-pick", "flatten")]
+        if not hits_:
+            ctx.ob("C12.d", f"{fq_}:per-instance", True, f_.loc, "no reduction over the batch axis takes part in choosing the start nodes", construct=f"{fq_}:per-instance")
+        for h in hits_:
+            site = vg.site_of(h.node)
+            fn_, text = ctx.repo.locate(*site) if site else (fq_, vg.show(h.node, 3))
+            ctx.ob("C12.d", f"{fq_}:per-instance", False, f"{site[0]}:{site[1]}" if site else f_.loc,
+                   f"`{text}` reduces over the whole batch and decides how the start nodes of EVERY instance are drawn: {h.why}. An instance with enough feasible start nodes gets "
+                   "randomly re-drawn / repeated starts because a batch-mate has too few", construct=f"{fq_}:batch-global:{alpha_key(text)}")
     return n
 
 
